@@ -108,7 +108,7 @@ enum { CL_SETOUT_WITH_REQ, CL_ANSWER_AFTER_REPLUMB, CL_DROP_ACROSS_QUEUE, CL_NO_
        CL_STALE_AND_LIVE, CL_REGISTER_MID_CHAIN, CL_BURST,
        CL_OWN_UCLOCK, CL_OWN_UREF_MGR, CL_OWN_FLOW_FORMAT, CL_OWN_UBUF_MGR_CHAINED, CL_OWN_LODGED_AT_TAIL, CL_OWN_THROWN, CL_OWN_SETOUT, CL_OWN_WITHDRAWN_AT_DEATH,
        CL_OWN_REISSUED, CL_OWN_ACROSS_QUEUE, CL_OWN_TAIL_ANSWER, CL_DEMAND_THROWS_AGAIN, CL_VSRC_TIMER, CL_HBIN_DROP_WITH_REQ, CL_HBIN_BUILD_WITH_REQ,
-       CL_HBIN_REPLACE_WITH_REQ, CL_HBIN_UNREG_NO_INNER, CL_HBIN_REG_NO_INNER, CL_BIN_OUTPUT_REQUEST, CL_SVC_SET, CL_SVC_NEW_OBJECT_ANSWERS, CL_SVC_OFF_THEN_UNANSWERED, CL_ANSWER_AGAIN };
+       CL_HBIN_REPLACE_WITH_REQ, CL_HBIN_UNREG_NO_INNER, CL_HBIN_REG_NO_INNER, CL_BIN_OUTPUT_REQUEST, CL_SVC_SET, CL_SVC_NEW_OBJECT_ANSWERS, CL_SVC_OFF_THEN_UNANSWERED, CL_ANSWER_AGAIN, CL_QSINK_REATTACH };
 static const char *const class_names[] = {
     "set_output_with_requests_registered", "answer_after_replumbing", "provide_after_unregister_across_queue_dropped", "no_provider_provide_request_unhandled",
     "provide_request_answered_by_probe", "deferred_answer_from_tail", "repeated_answer_same_request",
@@ -120,7 +120,7 @@ static const char *const class_names[] = {
     "own_request_lodged_at_tail", "own_request_thrown_on_own_probe", "set_output_with_own_request_registered", "own_request_withdrawn_when_pipe_dies",
     "own_request_re_required", "own_request_answer_crossed_queue", "own_request_answered_from_tail", "demand_throws_after_require", "void_source_timer_started",
     "hbin_inner_dropped_with_requests", "hbin_inner_built_after_drop_with_requests", "hbin_inner_replaced_with_requests", "hbin_unregister_while_no_inner", "hbin_register_while_no_inner",
-    "bin_output_request_registered", "service_probe_object_set", "answer_by_replaced_service_object", "service_probe_switched_off_then_unanswered", "ubuf_mgr_answered_again_with_the_answer_before_last", NULL };
+    "bin_output_request_registered", "service_probe_object_set", "answer_by_replaced_service_object", "service_probe_switched_off_then_unanswered", "ubuf_mgr_answered_again_with_the_answer_before_last", "queue_sink_upump_mgr_attached_again", NULL };
 #define CLS(x) ((uint64_t)1 << (x))
 
 /* ---------------------------------------------------------------- structures */
@@ -1472,6 +1472,23 @@ static void op_provide(struct ctx *c)
     end_op(c, what);
 }
 
+#if C12_QUEUE
+/* the queue sink is told to look for its upump manager again (what upipe_xfer sends to a pipe it has transferred): requests that are
+ * registered through it stay registered, and the answers that come back across the queue afterwards still reach their requesters */
+static void op_attach_qsink(struct ctx *c)
+{
+    if (c->qsink < 0) return;
+    struct rnode *r = &c->rn[c->qsink];
+    if (!r->held || r->dead || r->upipe == NULL) return;
+    c->hash = vp_hash_mix(c->hash, 0x480);
+    begin_op(c);
+    int err = upipe_attach_upump_mgr(r->upipe);
+    R("  attach_upump_mgr(p%d:qsink) -> %d\n", c->qsink, err);
+    c->cls |= CLS(CL_QSINK_REATTACH);
+    end_op(c, "attach_upump_mgr(qsink)");
+}
+#endif
+
 static void op_release(struct ctx *c)
 {
     uint8_t a = tp_u8(&c->t);
@@ -1724,6 +1741,15 @@ static void op_drain(struct ctx *c)
         bool b = !c->ret && op_step(c, false);
         if (!a && !b) break;
     }
+    /* nothing can run any more: a message that still sits in one of the out-of-band queues will never be read -- an answer (or a
+     * registration) that was pushed into the queue and never reaches the other side */
+    if (!c->ret && c->qsrc >= 0 && !c->rn[c->qsrc].dead && !node_dead_now(c, c->qsrc)) {
+        unsigned up = qlen(c, false), down = qlen(c, true);
+        if (up > 0 && c->qsink >= 0 && !c->rn[c->qsink].dead && !node_dead_now(c, c->qsink))
+            FAILC("queue/answer-stuck", "both loops are idle but %u message(s) wait in the upstream out-of-band queue: no watcher of the queue sink's loop reads them, the answers never reach their requesters", up);
+        else if (down > 0)
+            FAILC("queue/request-stuck", "both loops are idle but %u message(s) wait in the downstream out-of-band queue: no watcher of the queue source's loop reads them", down);
+    }
 }
 #endif
 
@@ -1923,6 +1949,9 @@ static int run(const uint8_t *tape, size_t len, struct vp_report *rep, unsigned 
         uint8_t opb = tp_u8(&c->t);
         if (opb >= 248) { op_svc_set(c, opb - 248); continue; }
         if (opb >= 224) { op_flow_def(c); continue; }
+#if C12_QUEUE
+        if (opb >= 216) { op_attach_qsink(c); continue; }
+#endif
         uint8_t op = opb % 16;
         switch (op) {
         case 0: case 1: case 2: case 3: op_toggle(c); break;
